@@ -8,6 +8,8 @@ Spec:   Model/Spec/NumText.lean  (`parseFloatSpec`, `parseIntSpec`)
 import Proofs.Lemmas.C03Int
 import Proofs.Lemmas.C03ReadFloat
 import Proofs.Lemmas.C03Special
+import Proofs.Lemmas.C03ExactPath
+import Proofs.Lemmas.C03Lang4
 import Model.Fmt.Reader
 
 namespace C03
@@ -229,6 +231,33 @@ theorem expLoop_exact (ds : Bytes) (hd : ds.all isDec = true) : ∀ e, valFrom e
     rw [valFrom_cons]
     exact ih hd.2 _ hlt
 
+/-- **readFloat_value** (full strength) — for every byte string s on which `underscoreOK` holds
+(the only texts `ParseFloat` hands to `readFloat`):
+
+* accepted language: `readFloat s` reports `ok` exactly when the specification's recogniser
+  (`Spec.NumText.recognise`: sign, `0x` prefix, underscore rule, mantissa with optional point,
+  `e`/`p` exponent, mandatory `p` for hex) accepts s;
+* when both accept: same sign, same `hex` flag, the `uint64` mantissa did not wrap, and — when
+  `trunc` is false — (mantissa, exp) denote the same number as the specification's exact
+  (M, E): M = mantissa·B^j and exp = E + bits·j, where j is the number of trailing zero digits
+  the 19/16-digit cap dropped (B = 10, bits = 1; hex: B = 16, bits = 4), provided the exponent
+  literal is below the clamp 10000 (`readFloat` stops accumulating there: "it doesn't matter if
+  it's not the exact number", which is true only for texts shorter than ~10^4 bytes).
+  A zero mantissa reports exp = 0 (the value is 0 either way). -/
+theorem readFloat_value (s : Bytes) (hu : underscoreOK s = true) :
+    (recognise s = none → (readFloat s).ok = false) ∧
+    (∀ p, recognise s = some p → Agrees (readFloat s) p (expLit s)) :=
+  readFloat_recognise s hu
+
+/-- **readFloat_language** — and a text rejected by `underscoreOK` (hence by `ParseFloat`) is not
+in the specification's language either. Together with `readFloat_value` and `special_correct`:
+`ParseFloat` and `parseFloatSpec` accept exactly the same byte strings. -/
+theorem readFloat_language (s : Bytes) (hu : underscoreOK s = false) : recognise s = none :=
+  recognise_of_not_uok s hu
+
+example : Agrees (readFloat (Bytes.ofString "-1_2.50e+3")) ⟨true, false, 1250, 1⟩ 3 := by
+  refine ⟨by decide +kernel, by decide +kernel, by decide +kernel, by decide +kernel, fun _ => ⟨0, by decide +kernel, fun _ _ => by decide +kernel⟩⟩
+
 /-! ## atof64exact -/
 
 /-- **pow10_table_exact** — every entry `float64pow10[k]`, k = 0 … 22, is a finite float whose
@@ -293,6 +322,17 @@ theorem exact_path_correct_partial (m : Nat) (exp : Int) (neg : Bool) :
         have e2 : ¬ (-22 ≤ exp) := by omega
         simp [hm, e0, e1, e2]
     · simp [hm]
+
+/-- **exact_path_correct** — whenever `atof64exact` answers, its answer is the correctly rounded
+value of mantissa·10^exp (`F64.ofDecimal`), for EVERY mantissa, exponent and sign: the guards
+(mantissa < 2^52; exp = 0, 0 < exp ≤ 22, 22 < exp ≤ 37 with the 10^(exp−22) pre-scale and the
+`|f| ≤ 1e15` test, −22 ≤ exp < 0) make `float64(mantissa)` exact, the pre-scaled product an exact
+integer ≤ 10^15, the table operand exact (`pow10_table_exact`), so the ONE final `F64.mul` /
+`F64.div` rounds the same rational the specification rounds (`F64.roundMag_congr`: rounding
+depends only on the value). Mantissa 0 gives ±0 on every branch. -/
+theorem exact_path_correct (m : Nat) (exp : Int) (neg : Bool) (v : F64.Bits)
+    (h : atof64exact m exp neg = some v) : v = F64.ofDecimal neg m exp :=
+  atof64exact_correct m exp neg v h
 
 /-- kernel-evaluated instances of the single rounding: 2^52−1 scaled by 10^22 / 10^−22,
 a three-digit decimal, a tie-prone quotient -/
